@@ -25,7 +25,7 @@ import time
 from common import SPEC, VERIF, Check, MachineryError, tlc
 
 DRIVERS = [(o, ham, ev) for o in (5, 8) for ham in (False, True) for ev in (False, True)]
-CHILD_BUDGET_S = 240.0          # a child needs ~15-40 s (import + JIT); a spinning driver never comes back
+CHILD_BUDGET_S = 420.0          # a child needs ~15-40 s (import + JIT); a spinning driver never comes back
 
 
 def dname(o, ham, ev):
